@@ -384,6 +384,9 @@ pub struct SourceFile {
     /// (`require("here/<path from the project location>")`); never required by another
     /// file, for the same reason as `use_alias`
     pub via_source: bool,
+    /// Some(i): rendered with the marker of source `i` (byte-identical twins: two files
+    /// with the same content in different places)
+    pub marker_of: Option<usize>,
 }
 
 /// What the `here` source of the path require mode stands for.
@@ -452,7 +455,7 @@ impl Project {
             .collect();
         corpus::render_lua(
             corpus::BODIES[src.body_index],
-            &Self::marker(index, src.version),
+            &Self::marker(src.marker_of.unwrap_or(index), src.version),
             &requires,
         )
     }
@@ -540,6 +543,7 @@ pub fn gen_project(rng: &mut Rng, knobs: &ProjectKnobs) -> Project {
             use_alias: false,
             bare: false,
             via_source: false,
+            marker_of: None,
         });
     }
     let bundle = if knobs.allow_bundle && rng.chance(2, 5) {
@@ -674,6 +678,7 @@ pub fn gen_project(rng: &mut Rng, knobs: &ProjectKnobs) -> Project {
                     use_alias: false,
                     bare: false,
                     via_source: false,
+                    marker_of: None,
                 });
             }
         };
@@ -693,6 +698,20 @@ pub fn gen_project(rng: &mut Rng, knobs: &ProjectKnobs) -> Project {
             if s.path == nested_user {
                 s.use_alias = true;
                 s.requires = vec![nested_lib.clone()];
+            }
+        }
+        if rng.chance(1, 3) {
+            // byte-identical twins: the same text `require("@lib/libmod.lua")` means
+            // another file for each of them
+            let root_index = sources.iter().position(|s| s.path == root_user);
+            let body = root_index.map(|i| sources[i].body_index);
+            if let (Some(root_index), Some(body)) = (root_index, body) {
+                for s in sources.iter_mut() {
+                    if s.path == nested_user {
+                        s.body_index = body;
+                        s.marker_of = Some(root_index);
+                    }
+                }
             }
         }
     }
@@ -715,6 +734,7 @@ pub fn gen_project(rng: &mut Rng, knobs: &ProjectKnobs) -> Project {
                     use_alias: false,
                     bare: false,
                     via_source: false,
+                    marker_of: None,
                 });
             }
             for (n, user) in [join(&input_dir, "srcuser.lua"), join(&input_dir, "sub/deep/srcuser2.lua")].into_iter().enumerate() {
@@ -730,6 +750,7 @@ pub fn gen_project(rng: &mut Rng, knobs: &ProjectKnobs) -> Project {
                     use_alias: false,
                     bare: false,
                     via_source: true,
+                    marker_of: None,
                 });
             }
         }
